@@ -90,8 +90,12 @@ type distributedEngine struct {
 }
 
 func NewDistributedEngine(opts Opts, endpoints api.RemoteEndpoints) v1.QueryEngine {
+	// Copy the optimizers: appending to the caller's slice could overwrite the
+	// optimizer of another engine created from the same options.
+	optimizers := make([]logicalplan.Optimizer, 0, len(opts.LogicalOptimizers)+1)
+	optimizers = append(optimizers, opts.LogicalOptimizers...)
 	opts.LogicalOptimizers = append(
-		opts.LogicalOptimizers,
+		optimizers,
 		logicalplan.DistributedExecutionOptimizer{Endpoints: endpoints},
 	)
 	return &distributedEngine{
